@@ -130,6 +130,9 @@ class Run:
             if m.group(1) == "LeakSanitizer":
                 what = "leak"
             return ("%s:%s" % (m.group(1).replace("Sanitizer", "").lower() + "san", what), self._case())
+        m = re.search(r"WARNING: ThreadSanitizer: ([^\n(]+)", e)
+        if m:
+            return ("tsan:" + m.group(1).strip().replace(" ", "-"), self._case())
         m = re.search(r"runtime error: ([^\n]*)", e)
         if m:
             msg = re.sub(r"0x[0-9a-f]+", "ADDR", m.group(1))
